@@ -16,51 +16,68 @@ from inner products.  This file fixes that interface as a small instruction set 
   branch is taken by every rank on ITS scalars: if two ranks disagree the run is `none` (in MPI: mismatched
   collectives / deadlock).
 
-`Proofs/Lockstep.lean` shows that `drun` is a simulation of `run` on the concatenated vectors.
+The scalar state of a rank is an arbitrary type `σ` (for a solver: the record of its scalar locals — counters, the
+small dense arrays `H, s, cs, sn` of the GMRES family, the exception flag …).  Every operand of an instruction is a
+function of the rank's OWN scalar state: coefficients `σ → K`, and also the vector registers `σ → Nat`
+(`*v[j]`, `*v[j+1]` with a run-time `j`), so that a rank whose scalars differed would read and write different
+vectors.  `Proofs/Lockstep.lean` shows that `drun` is a simulation of `run` on the concatenated vectors.
 -/
 namespace Amgcl.Lockstep
 open Amgcl Amgcl.Dist
 
-/-- a rank's scalar registers -/
+/-- a register file of scalars (the scalar state used by the CG program) -/
 abbrev SEnv (K : Type) := Nat → K
 
 def upd {α : Type} (f : Nat → α) (i : Nat) (v : α) : Nat → α := fun j => if j = i then v else f j
 
-/-- primitive instructions; coefficients are arbitrary rank-local functions of the scalar registers -/
-inductive Prim (K : Type) where
-  /-- `backend::axpby(a, x, b, y)` -/
-  | axpby (a : SEnv K → K) (x : Nat) (b : SEnv K → K) (y : Nat)
-  /-- `backend::axpbypcz(a, x, b, y, c, z)` -/
-  | axpbypcz (a : SEnv K → K) (x : Nat) (b : SEnv K → K) (y : Nat) (c : SEnv K → K) (z : Nat)
-  /-- `backend::copy(x, y)` -/
-  | copy (x y : Nat)
-  /-- `backend::clear(x)` -/
-  | clear (x : Nat)
-  /-- `backend::spmv(a, A, x, b, y)` -/
-  | spmv (a : SEnv K → K) (x : Nat) (b : SEnv K → K) (y : Nat)
-  /-- `backend::residual(f, A, x, r)` -/
-  | residual (f x r : Nat)
-  /-- `P.apply(x, y)` -/
-  | precond (x y : Nat)
-  /-- `dst = inner_product(x, y)` -/
-  | ip (dst x y : Nat)
-  /-- any scalar computation `dst = e(scalars)` (includes `sqrt`, `abs`, `/`, counters) -/
-  | sset (dst : Nat) (e : SEnv K → K)
+/-- a vector operand that does not depend on the scalars -/
+@[reducible] def R {σ : Type} (n : Nat) : σ → Nat := fun _ => n
 
-/-- structured programs: sequencing, branch on scalars, bounded `while` on scalars -/
-inductive Prog (K : Type) where
+/-- primitive instructions; coefficients and vector operands are arbitrary rank-local functions of the scalar state -/
+inductive Prim (K : Type) (σ : Type) where
+  /-- `backend::axpby(a, x, b, y)` -/
+  | axpby (a : σ → K) (x : σ → Nat) (b : σ → K) (y : σ → Nat)
+  /-- `backend::axpbypcz(a, x, b, y, c, z)` -/
+  | axpbypcz (a : σ → K) (x : σ → Nat) (b : σ → K) (y : σ → Nat) (c : σ → K) (z : σ → Nat)
+  /-- `backend::copy(x, y)` -/
+  | copy (x y : σ → Nat)
+  /-- `backend::clear(x)` -/
+  | clear (x : σ → Nat)
+  /-- `backend::spmv(a, A, x, b, y)` -/
+  | spmv (a : σ → K) (x : σ → Nat) (b : σ → K) (y : σ → Nat)
+  /-- `backend::residual(f, A, x, r)` -/
+  | residual (f x r : σ → Nat)
+  /-- `P.apply(x, y)` -/
+  | precond (x y : σ → Nat)
+  /-- `… = inner_product(x, y)`: the scalar state receives the value through `dst` -/
+  | ip (dst : σ → K → σ) (x y : σ → Nat)
+  /-- any rank-local scalar computation (includes `sqrt`, `abs`, `/`, counters, Givens rotations, back substitution) -/
+  | sset (e : σ → σ)
+  /-- `backend::lin_comb(n, c, v, b, y)` with `c[i]`, `v[i]`, `i < n` -/
+  | lincomb (n : σ → Nat) (c : σ → Nat → K) (v : σ → Nat → Nat) (b : σ → K) (y : σ → Nat)
+
+/-- structured programs: sequencing, branch on scalars, bounded `while` on scalars, counted `for` -/
+inductive Prog (K : Type) (σ : Type) where
   | skip
-  | prim (i : Prim K)
-  | seq (p q : Prog K)
-  | ite (c : SEnv K → Bool) (t e : Prog K)
-  | loop (c : SEnv K → Bool) (body : Prog K)
+  | prim (i : Prim K σ)
+  | seq (p q : Prog K σ)
+  | ite (c : σ → Bool) (t e : Prog K σ)
+  /-- `while (c) body` with at most `fuel` passes -/
+  | loop (fuel : Nat) (c : σ → Bool) (body : Prog K σ)
+  /-- `for (k = 0; k < n; ++k) body`, the bound `n` evaluated on entry, `setk` stores the loop variable -/
+  | forN (n : σ → Nat) (setk : σ → Nat → σ) (body : Prog K σ)
+
+/-- a statement list -/
+def seqs {K σ : Type} : List (Prog K σ) → Prog K σ
+  | [] => .skip
+  | p :: t => .seq p (seqs t)
 
 /-- `while (c) body` with at most `fuel` iterations -/
-def iter {σ : Type} (c : σ → Bool) (body : σ → σ) : Nat → σ → σ
+def iter {τ : Type} (c : τ → Bool) (body : τ → τ) : Nat → τ → τ
   | 0, s => s
   | fuel + 1, s => if c s then iter c body fuel (body s) else s
 
-def iterOpt {σ : Type} (c : σ → Option Bool) (body : σ → Option σ) : Nat → σ → Option σ
+def iterOpt {τ : Type} (c : τ → Option Bool) (body : τ → Option τ) : Nat → τ → Option τ
   | 0, s => some s
   | fuel + 1, s =>
     match c s with
@@ -68,50 +85,63 @@ def iterOpt {σ : Type} (c : σ → Option Bool) (body : σ → Option σ) : Nat
     | some true => (body s).bind (iterOpt c body fuel)
     | some false => some s
 
+/-- `for k in ks: body k` where the body may block -/
+def foldOpt {τ : Type} (body : τ → Nat → Option τ) : List Nat → τ → Option τ
+  | [], s => some s
+  | k :: ks, s => (body s k).bind (foldOpt body ks)
+
 section serial
-variable {K : Type} [Add K] [Mul K] [Sub K] [Zero K] [One K] [DecidableEq K]
+variable {K : Type} [Add K] [Mul K] [Sub K] [Zero K] [One K] [DecidableEq K] {σ : Type}
 
-structure St (K : Type) where
+structure St (K : Type) (σ : Type) where
   vec : Nat → Vec K
-  scal : SEnv K
+  scal : σ
 
-def step (A : CRS K) (P : Vec K → Vec K) (ipf : Vec K → Vec K → K) (i : Prim K) (s : St K) : St K :=
+def step (A : CRS K) (P : Vec K → Vec K) (ipf : Vec K → Vec K → K) (i : Prim K σ) (s : St K σ) : St K σ :=
+  let e := s.scal
   match i with
-  | .axpby a x b y => { s with vec := upd s.vec y (axpby (a s.scal) (s.vec x) (b s.scal) (s.vec y)) }
+  | .axpby a x b y => { s with vec := upd s.vec (y e) (axpby (a e) (s.vec (x e)) (b e) (s.vec (y e))) }
   | .axpbypcz a x b y c z =>
-      { s with vec := upd s.vec z (axpbypcz (a s.scal) (s.vec x) (b s.scal) (s.vec y) (c s.scal) (s.vec z)) }
-  | .copy x y => { s with vec := upd s.vec y (vcopy (s.vec x)) }
-  | .clear x => { s with vec := upd s.vec x (vclear (s.vec x).size) }
-  | .spmv a x b y => { s with vec := upd s.vec y (spmv (a s.scal) A (s.vec x) (b s.scal) (s.vec y)) }
-  | .residual f x r => { s with vec := upd s.vec r (residual (s.vec f) A (s.vec x)) }
-  | .precond x y => { s with vec := upd s.vec y (P (s.vec x)) }
-  | .ip dst x y => { s with scal := upd s.scal dst (ipf (s.vec x) (s.vec y)) }
-  | .sset dst e => { s with scal := upd s.scal dst (e s.scal) }
+      { s with vec := upd s.vec (z e) (axpbypcz (a e) (s.vec (x e)) (b e) (s.vec (y e)) (c e) (s.vec (z e))) }
+  | .copy x y => { s with vec := upd s.vec (y e) (vcopy (s.vec (x e))) }
+  | .clear x => { s with vec := upd s.vec (x e) (vclear (s.vec (x e)).size) }
+  | .spmv a x b y => { s with vec := upd s.vec (y e) (spmv (a e) A (s.vec (x e)) (b e) (s.vec (y e))) }
+  | .residual f x r => { s with vec := upd s.vec (r e) (residual (s.vec (f e)) A (s.vec (x e))) }
+  | .precond x y => { s with vec := upd s.vec (y e) (P (s.vec (x e))) }
+  | .ip dst x y => { s with scal := dst e (ipf (s.vec (x e)) (s.vec (y e))) }
+  | .sset f => { s with scal := f e }
+  | .lincomb n c v b y =>
+      let cvs := (List.range (n e)).map (fun i => (c e i, s.vec (v e i)))
+      { s with vec := upd s.vec (y e) (linComb cvs (b e) (s.vec (y e))) }
 
-/-- serial semantics; `fuel` bounds every loop -/
-def run (A : CRS K) (P : Vec K → Vec K) (ipf : Vec K → Vec K → K) (fuel : Nat) : Prog K → St K → St K
+/-- serial semantics -/
+def run (A : CRS K) (P : Vec K → Vec K) (ipf : Vec K → Vec K → K) : Prog K σ → St K σ → St K σ
   | .skip, s => s
   | .prim i, s => step A P ipf i s
-  | .seq p q, s => run A P ipf fuel q (run A P ipf fuel p s)
-  | .ite c t e, s => if c s.scal then run A P ipf fuel t s else run A P ipf fuel e s
-  | .loop c b, s => iter (fun s => c s.scal) (run A P ipf fuel b) fuel s
+  | .seq p q, s => run A P ipf q (run A P ipf p s)
+  | .ite c t e, s => if c s.scal then run A P ipf t s else run A P ipf e s
+  | .loop fuel c b, s => iter (fun s => c s.scal) (run A P ipf b) fuel s
+  | .forN n setk b, s =>
+      (List.range (n s.scal)).foldl (fun s k => run A P ipf b { s with scal := setk s.scal k }) s
 
 end serial
 
 section distributed
-variable {K : Type} [Add K] [Mul K] [Sub K] [Neg K] [Zero K] [One K] [DecidableEq K]
+variable {K : Type} [Add K] [Mul K] [Sub K] [Neg K] [Zero K] [One K] [DecidableEq K] {σ : Type}
 
-/-- state of all ranks: `vec v` is the list of the ranks' parts of vector `v`, `scal` the list of the ranks'
-scalar registers -/
-structure DSt (K : Type) where
+/-- state of all ranks: `vec v` is the list of the ranks' parts of vector `v`, `scal r` the scalar state of rank `r`
+(only `r <` number of ranks is meaningful) -/
+structure DSt (K : Type) (σ : Type) where
   vec : Nat → List (Vec K)
-  scal : List (SEnv K)
+  scal : Nat → σ
 
-/-- what every rank decides at a branch; `none` if the ranks disagree (or there is no rank) -/
-def decide? (c : SEnv K → Bool) (scal : List (SEnv K)) : Option Bool :=
-  match scal with
-  | [] => none
-  | e :: t => if t.all (fun e' => c e' == c e) then some (c e) else none
+/-- the value every rank computes for `g` from its own scalars; `none` if two of the `np` ranks disagree (or there
+is no rank) -/
+def agree? {α : Type} [DecidableEq α] (np : Nat) (g : σ → α) (scal : Nat → σ) : Option α :=
+  if 0 < np ∧ (List.range np).all (fun r => decide (g (scal r) = g (scal 0))) then some (g (scal 0)) else none
+
+/-- what every rank decides at a branch -/
+def decide? (np : Nat) (c : σ → Bool) (scal : Nat → σ) : Option Bool := agree? np c scal
 
 /-- the context of a distributed run: the distributed matrix (rows and columns partitioned by `part`), the
 distributed preconditioner, and `conj` of the inner product -/
@@ -121,43 +151,65 @@ structure DCtx (K : Type) where
   Pd : List (Vec K) → List (Vec K)
   conj : K → K
 
-def renv (scal : List (SEnv K)) (r : Nat) : SEnv K := scal.getD r (fun _ => 0)
+/-- the distributed vector the ranks pass to a collective operation: rank `r` passes its part of the vector
+register IT selects -/
+def gath (np : Nat) (vec : Nat → List (Vec K)) (scal : Nat → σ) (x : σ → Nat) : List (Vec K) :=
+  (List.range np).map fun r => (vec (x (scal r))).getD r #[]
 
-def dstep (C : DCtx K) (i : Prim K) (s : DSt K) : DSt K :=
+/-- every rank stores its part `new[r]` into the vector register IT selects -/
+def scat (np : Nat) (vec : Nat → List (Vec K)) (scal : Nat → σ) (y : σ → Nat) (new : List (Vec K)) :
+    Nat → List (Vec K) :=
+  fun v => (List.range np).map fun r => if v = y (scal r) then new.getD r #[] else (vec v).getD r #[]
+
+def dstep (C : DCtx K) (i : Prim K σ) (s : DSt K σ) : DSt K σ :=
   let np := C.part.length
   let loc (v : Nat) (r : Nat) : Vec K := (s.vec v).getD r #[]
+  let put (y : σ → Nat) (new : List (Vec K)) : DSt K σ := { s with vec := scat np s.vec s.scal y new }
   match i with
   | .axpby a x b y =>
-      { s with vec := upd s.vec y ((List.range np).map fun r =>
-          axpby (a (renv s.scal r)) (loc x r) (b (renv s.scal r)) (loc y r)) }
+      put y ((List.range np).map fun r =>
+        let e := s.scal r
+        axpby (a e) (loc (x e) r) (b e) (loc (y e) r))
   | .axpbypcz a x b y c z =>
-      { s with vec := upd s.vec z ((List.range np).map fun r =>
-          axpbypcz (a (renv s.scal r)) (loc x r) (b (renv s.scal r)) (loc y r) (c (renv s.scal r)) (loc z r)) }
-  | .copy x y => { s with vec := upd s.vec y ((List.range np).map fun r => vcopy (loc x r)) }
-  | .clear x => { s with vec := upd s.vec x ((List.range np).map fun r => vclear (loc x r).size) }
+      put z ((List.range np).map fun r =>
+        let e := s.scal r
+        axpbypcz (a e) (loc (x e) r) (b e) (loc (y e) r) (c e) (loc (z e) r))
+  | .copy x y => put y ((List.range np).map fun r => vcopy (loc (x (s.scal r)) r))
+  | .clear x => put x ((List.range np).map fun r => vclear (loc (x (s.scal r)) r).size)
   | .spmv a x b y =>
       let pats := patternsOf C.Ds C.part
-      { s with vec := upd s.vec y ((List.range np).map fun r =>
-          mulRank (a (renv s.scal r)) (C.Ds.getD r default) (pats.getD r default) (exchange pats (s.vec x) r)
-            (loc x r) (b (renv s.scal r)) (loc y r)) }
-  | .residual f x r => { s with vec := upd s.vec r (distResidual (s.vec f) C.Ds C.part (s.vec x)) }
-  | .precond x y => { s with vec := upd s.vec y (C.Pd (s.vec x)) }
+      let xs := gath np s.vec s.scal x
+      put y ((List.range np).map fun r =>
+        let e := s.scal r
+        mulRank (a e) (C.Ds.getD r default) (pats.getD r default) (exchange pats xs r) (loc (x e) r) (b e) (loc (y e) r))
+  | .residual f x r => put r (distResidual (gath np s.vec s.scal f) C.Ds C.part (gath np s.vec s.scal x))
+  | .precond x y => put y (C.Pd (gath np s.vec s.scal x))
   | .ip dst x y =>
-      let v := distInnerProduct C.conj (s.vec x) (s.vec y)      -- MPI_Allreduce: the same value on every rank
-      { s with scal := s.scal.map (fun e => upd e dst v) }
-  | .sset dst e => { s with scal := s.scal.map (fun env => upd env dst (e env)) }
+      -- MPI_Allreduce: the same value is delivered to every rank
+      let v := distInnerProduct C.conj (gath np s.vec s.scal x) (gath np s.vec s.scal y)
+      { s with scal := fun r => dst (s.scal r) v }
+  | .sset f => { s with scal := fun r => f (s.scal r) }
+  | .lincomb n c v b y =>
+      put y ((List.range np).map fun r =>
+        let e := s.scal r
+        linComb ((List.range (n e)).map (fun i => (c e i, loc (v e i) r))) (b e) (loc (y e) r))
 
 /-- distributed semantics: every rank runs the same program on its own scalars -/
-def drun (C : DCtx K) (fuel : Nat) : Prog K → DSt K → Option (DSt K)
+def drun (C : DCtx K) : Prog K σ → DSt K σ → Option (DSt K σ)
   | .skip, s => some s
   | .prim i, s => some (dstep C i s)
-  | .seq p q, s => (drun C fuel p s).bind (drun C fuel q)
+  | .seq p q, s => (drun C p s).bind (drun C q)
   | .ite c t e, s =>
-    match decide? c s.scal with
+    match decide? C.part.length c s.scal with
     | none => none
-    | some true => drun C fuel t s
-    | some false => drun C fuel e s
-  | .loop c b, s => iterOpt (fun s => decide? c s.scal) (drun C fuel b) fuel s
+    | some true => drun C t s
+    | some false => drun C e s
+  | .loop fuel c b, s => iterOpt (fun s => decide? C.part.length c s.scal) (drun C b) fuel s
+  | .forN n setk b, s =>
+    match agree? C.part.length n s.scal with
+    | none => none
+    | some cnt =>
+      foldOpt (fun s k => drun C b { s with scal := fun r => setk (s.scal r) k }) (List.range cnt) s
 
 end distributed
 
